@@ -130,6 +130,8 @@ type qRes struct {
 	Listed    []qRow      `json:"listed,omitempty"`
 	Lookup    [][3]string `json:"lookup,omitempty"`
 	Stats     map[string]int `json:"stats,omitempty"`
+	StatsAge  []int64     `json:"stats_age,omitempty"` // oldest queued received_at, earliest queued next_run_at (unix ns, 0 = none), oldest age, ready lag
+	StatsTop  [][]string  `json:"stats_top,omitempty"` // top backlog buckets: route, target, queued, oldest, earliest, age, lag
 	Total     int         `json:"total"`
 	Leases    []string    `json:"lease_args,omitempty"` // the concrete lease strings presented
 }
@@ -481,6 +483,17 @@ func runHistory(backend string, h qHistory, dbPath string) (out qHistOut) {
 			res.Stats = map[string]int{}
 			for k, v := range r.ByState {
 				res.Stats[string(k)] = v
+			}
+			uns := func(t time.Time) int64 {
+				if t.IsZero() {
+					return 0
+				}
+				return t.UnixNano()
+			}
+			res.StatsAge = []int64{uns(r.OldestQueuedReceivedAt), uns(r.EarliestQueuedNextRun), int64(r.OldestQueuedAge), int64(r.ReadyLag)}
+			for _, b := range r.TopQueued {
+				res.StatsTop = append(res.StatsTop, []string{b.Route, b.Target, fmt.Sprint(b.Queued), fmt.Sprint(uns(b.OldestQueuedReceivedAt)),
+					fmt.Sprint(uns(b.EarliestQueuedNextRun)), fmt.Sprint(int64(b.OldestQueuedAge)), fmt.Sprint(int64(b.ReadyLag))})
 			}
 		case "reopen":
 			if backend == "sqlite" {
